@@ -124,7 +124,7 @@ pub struct GatedOutcome {
 fn scenario(flavor: Flavor, point: &'static str, role: u8, trig: &'static str, racer: &'static str, seed: u64) -> GatedOutcome {
     let mut rng = Rng::new(seed);
     let keys = 6u64;
-    let tight = matches!(point, "item:new:before_victim_remove") || rng.chance(1, 3);
+    let tight = matches!(point, "item:new:before_victim_remove" | "cleanup:after_buckets_taken" | "cleanup:after_expiry_check") || rng.chance(1, 3);
     let h = HCfg {
         cfg: Cfg { num_counters: 1000, max_cost: if tight { 4 } else { 1000 }, buffer_size: *rng.pick(&[16usize, 64, 1024]), buffer_items: 64, metrics: true, ignore_internal: true, cleanup: Some(Duration::from_millis(500)), collide: false, collide_zero_even: false, manual_ticker: true },
         mode: "mixed",
